@@ -544,7 +544,7 @@ func init() {
 							if res.Verdict == engine.Accept && v.BitLen() > 32 {
 								return fw.Violate("accepts_out_of_range:engine:commit:midsize", fmt.Sprintf("circuit with %d further 32-bit checks: value %s passes a 32-bit check", pad, v))
 							}
-							if res.Verdict != engine.Accept && v.BitLen() <= 32 {
+							if !res.AcceptedHonestly() && v.BitLen() <= 32 {
 								return fw.Violate("rejects_in_range:engine:commit:midsize", fmt.Sprintf("circuit with %d further 32-bit checks: value %s: %s", pad, v, resStr(res)))
 							}
 							if res.Verdict == engine.Accept {
